@@ -98,6 +98,41 @@ def _falls_off(fn: ast.FunctionDef) -> bool:
     return ends(fn.body)
 
 
+def outer_step_argument(index: RepoIndex, given_action: bool) -> str:
+    """text of what OuterEnv.step hands to inner_env.step, over its own parameter, when the
+    caller gives an Action (True) or something else -- an index (False): the definition of the
+    parameter selected by the `isinstance(<param>, Action)` tests on the way"""
+    from ..guards import expand_under
+    oc = index.cls(OUTER, 'OuterEnv')
+    m = oc.methods.get('step')
+    if m is None:
+        raise AnalysisError('anchor vanished: OuterEnv.step')
+    w = walk_function(m.node)
+    p = m.node.args.args[1].arg
+    calls = [e for e in w.events if e.kind == 'call' and src(e.node.func) == 'self.inner_env.step']
+    if len(calls) != 1 or len(calls[0].node.args) != 1:
+        raise AnalysisError('OuterEnv.step does not call inner_env.step(<action>) exactly once')
+
+    def at(a: ast.AST):
+        t = src(a)
+        if t in (f'isinstance({p}, Action)',):
+            return given_action
+        return None
+    arg = calls[0].node.args[0]
+    if isinstance(arg, ast.Name) and arg.id == p:
+        # the parameter itself: its last re-binding before the call on the selected path
+        from ..guards import strip_iter, truth_under
+        live = [d for d in w.defs.get(p, []) if d[0] == 'value' and d[2] < calls[0].order
+                and truth_under(strip_iter(d[3]), at) is True]
+        undecided = [d for d in w.defs.get(p, []) if d[0] == 'value' and d[2] < calls[0].order
+                     and truth_under(strip_iter(d[3]), at) is None]
+        if undecided:
+            raise AnalysisError('OuterEnv.step re-binds its action under a condition outside '
+                                'the grammar')
+        return src(live[-1][1]) if live else p
+    return src(expand_under(w, arg, at))
+
+
 def _setters(cls) -> tuple:
     """public methods that store their own parameter as the state (`set_state(state)`): step /
     reset written through them are read with them inlined"""
@@ -474,6 +509,23 @@ def run(index: RepoIndex, rep) -> None:
     calls = [src(w.expand(e.node)) for e in w.events if e.kind == 'call']
     want = f'self.inner_env.step({p[0]})' if p else ''
     tup = f'({want}[0], {want}[1])'
+    if p and not (rets in ([want], [tup]) and calls == [want]):
+        # an index accepted as well as an Action (`if not isinstance(action, Action): action =
+        # self.action_space.int_to_action(action)`): read for a caller that gives an Action
+        wo = walk_function(m.node)
+        arg_a = outer_step_argument(index, True)
+        arg_i = outer_step_argument(index, False)
+        inner = [e for e in wo.events if e.kind == 'call'
+                 and src(e.node.func) == 'self.inner_env.step']
+        others = [src(e.node) for e in wo.events if e.kind == 'call' and e not in inner
+                  and not src(e.node.func).startswith('isinstance')]
+        rets_o = [e for e in wo.events if e.kind == 'return' and e.value is not None]
+        same_call = len(rets_o) == 1 and src(wo.expand(rets_o[0].value, stop=[p[0]])) in (
+            src(inner[0].node), f'({src(inner[0].node)}[0], {src(inner[0].node)}[1])')
+        if arg_a == p[0] and same_call and \
+                arg_i == f'self.action_space.int_to_action({p[0]})' and \
+                others == [f'self.action_space.int_to_action({p[0]})']:
+            rets, calls = [want], [want]
     rep.check(rets in ([want], [tup]) and calls == [want], 'C04.R5', OUTER, 'OuterEnv.step',
               m.node.lineno, '; '.join(rets),
               f'OuterEnv.step does not return inner_env.step(action) of exactly one call',
